@@ -81,6 +81,8 @@ var checks = map[string]checkFn{}
 
 func register(id string, f checkFn) { checks[id] = f }
 
+var cliOverlay map[string][]byte
+
 func usage() {
 	fmt.Fprintln(os.Stderr, "usage: ledgerlint check <Cxx> [quick|thorough] [-overlay file.json] [-repo dir] | replay <file> | selftest [ids] | list")
 	os.Exit(2)
@@ -139,6 +141,9 @@ func runCheckEnv(id, tier string, e *Env) (code int) {
 		}()
 		f(c, e)
 	}()
+	if tier == "thorough" {
+		c.Extra["sensitivity"] = runSensitivity(id)
+	}
 	return c.Finish()
 }
 
@@ -154,6 +159,7 @@ func main() {
 		case "-overlay", "--overlay":
 			i++
 			overlay = readOverlay(args[i])
+			cliOverlay = overlay
 		case "-repo", "--repo":
 			i++
 			repoRoot = args[i]
@@ -222,6 +228,8 @@ func main() {
 		inventory(pos[1])
 	case "e1dump":
 		e1dump(pos[1], pos[2], len(pos) > 3)
+	case "e1loops":
+		e1loops(pos[1], pos[2])
 	case "e1events":
 		e1events(pos[1], pos[2])
 	case "callees":
